@@ -502,7 +502,7 @@ class ConfigNode(metaclass=ConfigNodeMeta):
                 other.extend(self)
             else:
                 other.update(self)
-            other.__dict__.update(self.__dict__)
+            other.__dict__.update({ name: value for name, value in self.__dict__.items() if name != '_children' }) # (the children have just been re-attached above)
             return other
         elif issubclass(type(self), type(other)): # complex dict/list replaces simple dict/list, leave as is
             return self
@@ -512,7 +512,7 @@ class ConfigNode(metaclass=ConfigNodeMeta):
                 other.extend(self.values())
             else:
                 other.update(enumerate(self))
-            other.__dict__.update(self.__dict__)
+            other.__dict__.update({ name: value for name, value in self.__dict__.items() if name != '_children' }) # (the children have just been re-attached above)
             return other
         elif not self._is_plain_composed() and other._is_plain_composed(): # complex dict/list replaces simple list/dict, leave as is
             return self
